@@ -32,6 +32,9 @@ Definition add_tokens (kn : known) (gi : ginfo) (at_ rt : id) : known :=
   mkKnown (k_cbs kn) (k_codes kn) (if is_nil at_ then k_ats kn else (at_, gi) :: k_ats kn)
           (if is_nil rt then k_rts kn else (rt, gi) :: k_rts kn) (k_cibas kn).
 
+Definition assertion_sub (a : assertion) : string := match a with AsOk s => s | _ => "" end.
+Definition assertion_ok (a : assertion) : bool := match a with AsOk _ => true | _ => false end.
+
 (* learn from one (operation, observation) pair *)
 Definition learn (kn : known) (o : op) (x : obs) : known :=
   match o, x with
@@ -67,6 +70,11 @@ Definition learn (kn : known) (o : op) (x : obs) : known :=
       end
   | OpToken GClientCredentials r, Out (OTokens t) =>
       add_tokens kn (mkGI (cr_id (t_cred r)) (cname (cr_id (t_cred r))) (t_scope r) 0 (t_resources r) true) (tr_at t) 0
+  (* jwt-bearer: no resource owner behind the request - the client is the one the request named (0: nobody,
+     the anonymous client), the subject the one the embedder's assertion handler answered, granted =
+     requested; bound like client_credentials by the client's registration and the configured resources *)
+  | OpToken GJwtBearer r, Out (OTokens t) =>
+      add_tokens kn (mkGI (cr_id (t_cred r)) (assertion_sub (t_assertion r)) (t_scope r) 0 (t_resources r) true) (tr_at t) (tr_rt t)
   | OpBcAuthorize r, Out (OCiba a _) =>
       mkKnown (k_cbs kn) (k_codes kn) (k_ats kn) (k_rts kn)
               ((a, mkGI (cr_id (br_cred r)) (br_sub r) (br_granted r) 0 (br_granted_res r) false) :: k_cibas kn)
@@ -118,6 +126,9 @@ Definition c04_info (cfg : config) (kn : known) (p : ptok) (i : intro) : N :=
   match lookup (ptok_exact p) (if in_refresh i then k_rts kn else k_ats kn) with
   | Some gi => if negb (within_s (gi_granted gi) (in_scope i)) then 1
                else if negb (ideq (in_client i) (gi_client gi)) then 3
+               (* owner-less grants: the subject is the client itself (client_credentials) / the one the
+                  embedder's assertion handler answered (jwt-bearer) *)
+               else if andb (gi_ownerless gi) (negb (seqb (in_sub i) (gi_sub gi))) then 3
                else if negb (subset (in_aud i) (gi_res gi)) then 4
                else if andb (gi_ownerless gi) (negb (subset (in_aud i) (cf_resources cfg))) then 4
                else 0
@@ -138,6 +149,12 @@ Definition clause_C04 (cfg : config) (kn : known) (now : Z) (o : op) (x : obs) :
       | None => 0 end
   | OpToken GClientCredentials r, Out (OTokens t) =>
       if andb (subset (tr_aud t) (cf_resources cfg)) (subset (tr_aud t) (t_resources r)) then 0 else 4
+  | OpToken GJwtBearer r, Out (OTokens t) =>
+      (* tokens only for an assertion the embedder's handler accepted; scope / resources members within
+         what was requested, aud within the configured resources *)
+      if negb (assertion_ok (t_assertion r)) then 3
+      else if negb (within_s (t_scope r) (tr_scope t)) then 1
+      else if andb (subset (tr_aud t) (cf_resources cfg)) (andb (subset (tr_aud t) (t_resources r)) (subset (tr_res t) (t_resources r))) then 0 else 4
   | OpIntrospect r, Out (OIntro i) => c04_info cfg kn (q_tok r) i
   | OpTokenInfo p, Out (OIntro i) => c04_info cfg kn p i
   | _, _ => 0
@@ -688,10 +705,27 @@ Definition clause_C04b (cs : syscase) (cfg : config) (f : flowst) (o : op) (x : 
           | Some c => if andb (nav_grants_ok c nv) (mem (p_resp_type p) (c_resp_types c)) then 0 else 2
           | None => 2 end
       | None => 0 end
-  | OpToken g r, Out (OTokens _) =>
+  | OpToken g r, Out (OTokens t) =>
+      (* owner-less grants: what is granted is what was requested, which must be within the client's
+         registration by the whole-entry rule (clause 1); a refresh token only for a client registered
+         for refresh_token (clause 2) *)
+      let ownerless_ok (c : client) : N :=
+        match g with
+        | GClientCredentials | GJwtBearer =>
+            if negb (are_scopes_allowed (c_scopes c) (cf_scopes cfg) (t_scope r)) then 1
+            else if andb (negb (is_nil (tr_rt t))) (negb (has_grant GRefreshToken (c_grants c))) then 2 else 0
+        | _ => 0 end in
       match client_of cs (cr_id (t_cred r)) with
-      | Some c => if andb (has_grant g (c_grants c)) (has_grant g (cf_grants cfg)) then 0 else 2
-      | None => 2 end
+      | Some c => if andb (has_grant g (c_grants c)) (has_grant g (cf_grants cfg)) then ownerless_ok c else 2
+      | None =>
+          (* nobody named: only jwt-bearer, only where the embedder allows anonymous use; the anonymous
+             client is registered for jwt-bearer alone, for the ids of the server's scopes *)
+          match g with
+          | GJwtBearer =>
+              if andb (is_nil (cr_id (t_cred r))) (andb (negb (cf_jwt_bearer_authn_required cfg)) (has_grant g (cf_grants cfg)))
+              then ownerless_ok (anonymous_client cfg) else 2
+          | _ => 2 end
+      end
   | _, _ => 0
   end.
 Definition mon_C04x (c : syscase) : N :=
